@@ -67,7 +67,8 @@ pub fn read_slp(b: &[u8], skip: bool, hash: bool) -> Result<Game, Fail> {
 			let r = catch(|| slippi::read(EnvReader::new(b, Sched::FailAt(call, std::io::ErrorKind::Interrupted)), Some(&opts)));
 			match r {
 				// giving up on an interrupted call is an error, not a wrong answer: ask again without it
-				Ok(Err(e)) if e.to_string().contains("env: injected fault") => catch(|| slippi::read(Cursor::new(b), Some(&opts))),
+				// (whatever the error says - an implementation may wrap it)
+				Ok(Err(_)) => catch(|| slippi::read(Cursor::new(b), Some(&opts))),
 				r => r,
 			}
 		}
